@@ -417,6 +417,63 @@ func checkC10(c *core.Ctx, r *core.Report) {
 		r.OK("ORDER", "all-WAL-discard-sites-owned", "-", fmt.Sprintf("%d call sites that may delete a WAL file, each covered by an obligation or inside a wrapper", nSites))
 	}
 
+	// ------------------------------------------------------------- (3b) append under the buffer lock
+	{
+		la := lockAnalysis(c)
+		walAppend := c.Obj(pkgWal, "Wal.Append")
+		nApp := 0
+		for _, fn := range c.RepoFunctions() {
+			ff := la.Facts[fn]
+			for _, call := range callsTo(fn, walAppend) {
+				// the receiver is loaded from a field of a *WalState struct that also has a `lock` field
+				ld, ok := call.Call.Args[0].(*ssa.UnOp)
+				if !ok {
+					continue
+				}
+				fa, ok := ld.X.(*ssa.FieldAddr)
+				if !ok {
+					continue
+				}
+				pt, ok := fa.X.Type().Underlying().(*types.Pointer)
+				if !ok {
+					continue
+				}
+				st, ok := pt.Elem().Underlying().(*types.Struct)
+				if !ok {
+					continue
+				}
+				lockIdx := -1
+				for i := 0; i < st.NumFields(); i++ {
+					if st.Field(i).Name() == "lock" {
+						lockIdx = i
+					}
+				}
+				if lockIdx < 0 {
+					continue
+				}
+				nApp++
+				tn := ""
+				if n, ok := pt.Elem().(*types.Named); ok {
+					tn = n.Obj().Name()
+				}
+				want := "(" + pkgMetrics + "." + tn + ").lock"
+				held := false
+				for _, h := range ff.MustAt[call] {
+					if h.Class.Name == want && !h.Read {
+						held = true
+					}
+				}
+				construct := fmt.Sprintf("%s:Wal.Append(%s.%s)-under-%s.lock", shortFn(fn), tn, st.Field(fa.Field).Name(), tn)
+				if held {
+					r.OK("HELD", construct, c.Pos(call.Pos()), "the buffer's lock is must-held at the append")
+				} else {
+					r.Violation("HELD", construct, c.Pos(call.Pos()), "the WAL block is encoded and appended without holding the lock of the buffer it reads: concurrent ingestion overwrites entries while they are encoded, so the log (with a valid CRC) contains datapoints that were never written and misses others")
+				}
+			}
+		}
+		r.Floor("HELD", "Wal.Append sites on lock-guarded WAL states", nApp, 3)
+	}
+
 	// ------------------------------------------------------------- (4) rewritten WAL
 	walWrite := c.Fn(pkgWal, "Wal.Write")
 	trunc := c.ExtObj("os", "File.Truncate")
